@@ -146,5 +146,80 @@ def generate(seed, tier, index, kf):
     return prog
 
 
-execute = worlda.execute
-simplifications = worlda.simplifications
+# ---------------------------------------------------------------------------
+# family "preauth" (World B): what a client sends before it has logged in is answered by the front-end itself - every
+# complete command exactly once, with the command's tag
+PRE_LINES = ["CAPABILITY", "NOOP", "LOGIN onlyuser", "LOGIN", "FETCH", "BOGUS", "SELECT inbox", "LOGIN alice wrongpw", "LOGIN alice \"wr\\\"ong\"", "ID NIL",
+             "FETCH 1 (", "UID", "STORE 1 +FLAGS", "AUTHENTICATE PLAIN", "LIST \"\" *", "STARTTLS", "X", "LOGIN {3+}\r\nabc", "NAMESPACE extra", "LOGOUT extra"]
+
+
+def generate_preauth(seed, tier):
+    r = random.Random(seed)
+    lines = [r.choice(PRE_LINES) for _ in range(r.randint(3, 12))]
+    return {"format": 1, "seed": seed, "world": "B", "family": "preauth", "lines": lines, "seg": r.choice(("whole", "whole", "bytes")),
+            "latency": {"exec": "zero", "db": "zero", "net": r.choice(("zero", "small"))}, "ops": [], "props": [PROP]}
+
+
+def execute_preauth(program, opts):
+    import asyncio
+
+    from harness.driver import KnownFindings
+    from harness.runctx import RunCtx
+    from sim.loop import SimQuiescent, StepLimit
+    from sim.worldb import FrontEnd, RawImapSession
+
+    ctx = RunCtx(program, opts)
+    world = ctx.world
+    loop = ctx.env.loop
+    world.known = KnownFindings()
+    fe = FrontEnd(world, ctx.jail, {"alice": {"password": "alicepw"}})
+
+    async def main():
+        await fe.start()
+        s = RawImapSession(world, "pa", "10.3.0.1")
+        world.net.connect(fe.imap_port, s, addr="10.3.0.1", seg_c2s=program.get("seg", "whole"))
+        await s.wait_greeting()
+        ctx.nontrivial = True
+        for ln in program["lines"]:
+            if s.lost:
+                break
+            r = await s.command(ln, timeout=100.0)
+            world.count("c06_answered")
+            if r.status is None and not s.lost and not r.closed:
+                world.violate(PROP, "no_tagged_reply", session="pa", cmd=ln[:60], waited=100, state="not authenticated", untagged=[u.raw[:80].decode("latin-1") for u in r.untagged][:3])
+                break
+            if ln.upper().startswith("LOGOUT"):
+                break
+        s.close()
+
+    extra = {}
+    try:
+        loop.run_until_complete(loop.create_task(main(), name="c06-preauth"))
+    except SimQuiescent:
+        extra["harness_error"] = "quiescent"
+    except StepLimit:
+        extra["harness_error"] = "step cap"
+    res = ctx.result(extra)
+    ctx.cleanup()
+    return res
+
+
+_generate_a = generate
+
+
+def generate(seed, tier, index, kf):
+    if index % 10 == 9:
+        return generate_preauth(seed, tier)
+    return _generate_a(seed, tier, index, kf)
+
+
+def execute(program, opts):
+    if program.get("family") == "preauth":
+        return execute_preauth(program, opts)
+    return worlda.execute(program, opts)
+
+
+def simplifications(program):
+    if program.get("family") == "preauth":
+        return [dict(program, lines=program["lines"][:i] + program["lines"][i + 1:]) for i in range(len(program["lines"]))]
+    return worlda.simplifications(program)
